@@ -8,9 +8,9 @@ CN = {0: 'snappy', 1: 'lz4'}
 REF = ['ref_snappy.c', 'ref_lz4.c', 'ref_rle.c']
 
 
-def ob(codec, n, mode=1, alpha=256, timeout=600):
-    nm = '%s/%s/n%d%s' % ({1: 'roundtrip', 2: 'ref-decodes', 3: 'small-dst'}[mode], CN[codec], n, '' if alpha == 256 else '/alpha%d' % alpha)
-    return E2(nm, H, ['src/compression/%s.c' % CN[codec]], ['-DCODEC=%d' % codec, '-DN=%d' % n, '-DMODE=%d' % mode, '-DALPHA=%d' % alpha], ref=REF, leaks=True, timeout=timeout,
+def ob(codec, n, mode=1, alpha=256, timeout=600, concx=False):
+    nm = '%s/%s/n%d%s%s' % ({1: 'roundtrip', 2: 'ref-decodes', 3: 'small-dst'}[mode], CN[codec], n, '' if alpha == 256 else '/alpha%d' % alpha, '/concrete-incompressible' if concx else '')
+    return E2(nm, H, ['src/compression/%s.c' % CN[codec]], ['-DCODEC=%d' % codec, '-DN=%d' % n, '-DMODE=%d' % mode, '-DALPHA=%d' % alpha] + (['-DCONCX'] if concx else []), ref=REF, leaks=True, timeout=timeout,
               max_paths=200000, fork_max=64,
               bounds='%s: every input of %d byte(s)%s; destination of exactly compress_bound(n) bytes%s; hash table in a z3 array (symbolic index)' % (
                   CN[codec], n, '' if alpha == 256 else ' over an alphabet of %d byte values' % alpha, ' (MODE 3: every smaller capacity)' if mode == 3 else ''))
@@ -34,6 +34,10 @@ def obligations(tier):
     # destinations SMALLER than the bound; n >= 16 makes literal runs of 15+ bytes (length-extension bytes in the token stream)
     for n in ([4, 12, 16, 20] if q else [0, 1, 4, 8, 12, 16, 17, 20, 24, 31]):
         o.append(ob(1, n, mode=3))
+    # ... and with concrete incompressible content up to 300 bytes (literal runs with 1 and 2 length-extension bytes), every capacity below the bound
+    for codec in (1, 0):
+        for n in ([20, 200] if q else [15, 16, 20, 31, 200, 270, 300]):
+            o.append(ob(codec, n, mode=3, concx=True))
     # emission lemmas (E1/CBMC): every (offset <= window limit of the source, len) is encoded faithfully — covers match distances
     # the bounded round trips cannot reach (inputs > 64 KiB are otherwise outside the bound)
     o.append(E1('lemma/snappy-emit-copy', 'harness/e1/c09_emit.c', [], ['-DMODE=1', '-DLMAX=200'], unwind=8, timeout=300, includes_source=['src/compression/snappy.c'],
